@@ -93,7 +93,7 @@ pub fn burst(seed: u64, idx: u64) -> Scenario {
     let mut stall = Conn::simple(0, 0, get("/file.txt"), "stall");
     stall.client = ClientMode::Stall { then_send: true };
     sc.conns.push(stall);
-    let n = *rng.pick(&[1030usize, 1100, 2060, 4100]);
+    let n = *rng.pick(&[1030usize, 1100, 1100, 2060]);
     for i in 1..=n {
         sc.conns.push(Conn::simple(i, 0, get(*rng.pick(&["/file.txt", "/one.txt", "/missing.txt"])), "get"));
     }
@@ -124,7 +124,7 @@ pub fn plan(tier: Tier, seed: u64) -> Vec<Campaign> {
     v.push(Campaign {
         name: "burst",
         budget: match tier {
-            Tier::Quick => Budget::Count(16),
+            Tier::Quick => Budget::Count(8),
             Tier::Thorough => Budget::Time(1),
         },
         exhaustive: false,
